@@ -964,10 +964,13 @@ class Machine:
         """run thread-local destructors registered through __cxa_thread_atexit (reverse order)"""
         t = self.cur
         lst = list(t.atexit); t.atexit = []
-        for n, (ag, fn, obj) in enumerate(reversed(lst)):
+        # handlers are identified by the key path of their registration (stable across passes and between symbolic and
+        # concrete runs) and run in registration order; the harnesses have one thread-local object per thread
+        lst.sort(key=lambda e: e[3])
+        for ag, fn, obj, regkey in lst:
             gg = And(g, ag)
             if gg is False: continue
-            self.keypath.append(('x', t.tid, n))     # thread id: exit handlers of different threads must not share keys
+            self.keypath.append(('x', t.tid, regkey))
             for a, c in self.cands(fn, gg, 'atexit'):
                 nm = self.addr_fn.get(a)
                 if nm is None: continue
